@@ -24,6 +24,8 @@ def ties (h1 h2 : List Card) : Prop := handStrength h1 = handStrength h2
 /-- rule-based evaluation of six or seven cards: the greatest strength over all five-card subsets -/
 def bestStrength (cs : List Card) : Nat := ((combos 5 cs).map handStrength).foldl max 0
 
+def ranks (cs : List Card) : List Nat := cs.map (·.rank)
+
 def words (cs : List Card) : List Nat := cs.map Card.word
 
 end Spec
